@@ -22,52 +22,73 @@ CHECKS = {
     'C01': dict(
         technique='Lean 4 proof of the round-trip law per codec combinator, instantiated per modelled class + differential correspondence + implementation-side round-trip oracle',
         text=("RoundTrip (compose succeeds; parse of the composed bytes followed by ANY suffix returns the value and consumes "
-              "exactly the composed bytes) is proved for the primitive codecs and preserved by seq/mapE/guardE/minSize/framed; "
-              "instantiated for TlsProtocolVersion, TlsRecord, TlsAlertMessage, ChangeCipherSpec, ServerKeyExchange, "
-              "ServerHelloDone, CertificateStatus. For the hello messages the full statement is kept visible and tied to the "
-              "code by the correspondence only (partial). Every generated object of every modelled class is composed, parsed "
-              "by code and model and compared; the implementation oracle checks field-by-field equality."),
+              "exactly the composed bytes) is proved for the primitive codecs and preserved by seq/mapE/guardE/minSize/framed/the "
+              "vector and item-loop combinators; instantiated (CpProps/C01, C01Hello, C01Ext, C01Ssl2) for TlsProtocolVersion, "
+              "TlsRecord, alert, CCS, ServerKeyExchange, ServerHelloDone, CertificateStatus, Certificate, CertificateRequest, "
+              "ClientHello, ServerHello/HelloRetryRequest under explicit decidable well-formedness predicates, for every hello "
+              "extension class through the variant of its side, and for the SSL 2.0 record and its three message classes; SSH, "
+              "DNS and opportunistic-TLS classes in C07/C08/C09. False full statements are kept visible with witnesses (e.g. a "
+              "65533-byte server name). Every generated object of every modelled class is composed, parsed by code and model and "
+              "compared; the implementation oracle checks field-by-field equality, also for ~390 classes harvested from the "
+              "repository tests and 99 text-field classes built by type-directed generators."),
         design='§6 C01', note=CLS_NOTE),
     'C02': dict(
         technique='Lean 4 proof of NoCrash per combinator/class (every non-documented Python exception is a crash branch of the model) + malformed-stream correspondence + crash monitor on the real code',
         text=("NoCrash (no input reaches a branch modelling IndexError/ValueError/TypeError/KeyError/struct.error/"
               "NotImplementedError/non-termination) is proved for the primitives, the coded-enum and IntEnum positions, "
-              "seq/framed and for TlsRecord, alert, CCS, version and every handshake class with a crash-free payload parser. "
+              "seq/framed, TlsRecord, alert, CCS, version, every handshake class incl. ServerHello/HelloRetryRequest, Certificate, "
+              "CertificateRequest, every extension body parser, the SSL 2.0 record and messages; for ClientHello and the handshake "
+              "variant the only crash token left is the model boundary UNMODELLED (server names the idna codec would change). "
               "Truncated, bit-flipped, length-corrupted and spliced encodings of every modelled class run through code and "
-              "model; any exception outside the four documented ones on the real code is a violation by itself."),
+              "model; any exception outside the four documented ones on the real code is a violation by itself, also on the "
+              "harvested corpus with header-directed, text and JSON mutations."),
         design='§6 C02', note=CLS_NOTE),
     'C03': dict(
         technique='Lean 4 proof of LenBound/Positive/SelfDelim/declared-length per framing unit and of the entry-point wrappers + correspondence with trailing bytes',
         text=("For every codec: parse_mutable removes exactly the first n bytes, a failed parse leaves the buffer untouched, "
               "parse_exact_size succeeds iff n = len. LenBound/Positive/SelfDelim and n = declared length are proved for "
-              "TlsRecord and for EVERY TLS handshake message class (the framing decides them, whatever the payload parser). "
-              "parse_raw can no longer move the cursor backwards (negative size rejected). Encodings with trailing bytes, "
-              "concatenations and corrupted length fields are compared between code and model incl. the buffer after "
-              "parse_mutable; the oracle re-parses the first n bytes with other suffixes on the real code."),
+              "TlsRecord and for EVERY TLS handshake message class (the framing decides them, whatever the payload parser), for "
+              "SSH binary packets (any message codec and the three record classes) and the identification string; for the SSL 2.0 "
+              "record LenBound/Positive and the exact consumed length are proved, 'n = declared' and SelfDelim are refuted with "
+              "witnesses (the record is not confined to its declared length: known finding pinned by a repo test) and proved in "
+              "their partial forms. Encodings with trailing bytes (incl. the unit's own last byte, line terminators, the unit "
+              "itself), concatenations and corrupted length fields are compared between code and model incl. the buffer after "
+              "parse_mutable; frames written from the specification (SSL 2.0 both header forms with padding, LDAP long-form "
+              "lengths) must be consumed exactly."),
         design='§6 C03', note=CLS_NOTE),
     'C04': dict(
         technique='Lean 4 proof: PrefixReject per record layer + generic reader-loop reassembly theorem (induction over chunk lists) instantiated; exhaustive prefix correspondence; reader loop on the real code',
         text=("PrefixReject (every proper prefix of a composed record is rejected with NotEnoughData(m), 1 <= m <= bytes "
-              "missing) is proved for TlsRecord and every TLS handshake message class; the generic theorems "
-              "reader_reassembles / reader_never_overasks / fragmentation independence (any codec with RoundTrip + "
-              "PrefixReject, any chunking) are instantiated for TlsRecord and an opaque handshake class. Every cut position of "
-              "generated records is run through code and model; a parse_mutable/bytes_needed reader loop is driven over "
-              "random chunkings incl. handshake messages fragmented over records."),
+              "missing) is proved for TlsRecord, every TLS handshake message class, the SSL 2.0 record, SSH binary packets and "
+              "name-lists; the generic theorems reader_reassembles / reader_never_overasks / fragmentation independence (any codec "
+              "with RoundTrip + PrefixReject, any chunking) are instantiated for TlsRecord, an opaque handshake class and SslRecord. "
+              "The SSH identification string is the visible exception (a prefix without LF is InvalidValue: known finding pinned by "
+              "a repo test). Every cut position of generated records of every modelled layer, and of LDAP messages on the "
+              "implementation, is checked; a parse_mutable/bytes_needed reader loop is driven over random chunkings incl. "
+              "handshake messages fragmented over records."),
         design='§6 C04', note=CLS_NOTE),
     'C05': dict(
         technique='Lean 4 proof: canonical form from ParseWf + RoundTrip per class + correspondence on accepted mutants + parse/compose/parse oracle on the real code',
         text=("Canonical c (accepted input => compose succeeds, re-parses to the same value consuming everything, and "
               "composes to the same bytes again) follows from ParseWf and RoundTrip; proved for the primitive codecs, "
-              "TlsProtocolVersion, TlsRecord, alert and CCS. Mutated-but-accepted encodings of all modelled classes are "
-              "recomposed by code and model and compared; the oracle checks parse->compose->parse->compose on the real code."),
+              "TlsProtocolVersion, TlsRecord, alert, CCS, Certificate, CertificateRequest, ClientHello, ServerHello/HelloRetryRequest, "
+              "every extension body, the SSL 2.0 messages, SSH mpints (every accepted non-canonical input re-composes canonically), "
+              "DNS names/MX/DS/RRSIG/DNSKEY. Mutated-but-accepted encodings of all modelled classes are recomposed by code and model "
+              "and compared; the oracle checks parse->compose->parse->compose on the real code, also on inputs that do NOT come "
+              "from compose(): RFC reference encodings of generated TLS messages, the harvested corpus, text spellings made to end "
+              "in separator characters."),
         design='§6 C05', note=CLS_NOTE),
     'C06': dict(
         technique='Lean 4 proof that the model composers equal an independent RFC-level spec encoder and that every vector prefix width equals the RFC ceiling width + independent Python RFC encoder vs the real code',
-        text=("Theorems: TlsRecord/alert/CCS compose = Spec encoders written from RFC 5246; every handshake class composes "
-              "msg_type + uint24 length + body; for 25 vector classes the live item_num_size (float math.log) equals the "
-              "width required by the RFC ceiling and the ceiling equals the RFC's; floors differing from the RFC are exactly "
-              "the listed ones. An independent Python encoder written from the RFCs (all handshake messages, 30+ extension "
-              "classes, SSL 2.0) is compared byte for byte with compose() of generated objects and its output parsed back."),
+        text=("50 theorems (CpProps/C06.lean, C06Ssl2.lean, C06Ext.lean): TlsRecord/alert/CCS compose = Spec encoders written from RFC 5246; "
+              "every handshake class composes msg_type + uint24 length + body; for every vector class the live item_num_size "
+              "(float math.log) equals the width required by the RFC ceiling and the ceiling equals the RFC's; floors differing "
+              "from the RFC are exactly the listed ones; every hello-extension body (server_name, ALPN/ALPS, NPN, status_request, "
+              "key_share client/server/hello-retry, token_binding, SCT list) and CertificateRequest compose to independent Spec "
+              "encoders written from RFC 6066/7301/8446/8472/6962; the SSL 2.0 record and messages compose to the Spec of the "
+              "SSL 2.0 draft and both header forms of the Spec decode back. An independent Python encoder written from the RFCs "
+              "is compared byte for byte with compose() of generated objects, and its output is parsed back through the class, "
+              "through the extension variant of its side and inside an extension list followed by another extension."),
         design='§6 C06', note=CLS_NOTE + " The Spec encoders are a reading of the RFCs (trusted)."),
     'C07': dict(
         technique='Lean 4 proof that the SSH model composers equal an RFC-level spec encoder and that the parsers invert it (name-lists, mpints, binary packets, KEXINIT, DH/GEX messages, key blobs, certificates, banner) + differential correspondence + independent Python RFC encoder/decoder vs the real code',
@@ -178,13 +199,17 @@ CHECKS = {
         note=COMMON_NOTE + " String-coded enumerations: distinctness proved, longest-prefix matching exercised by correspondence only."),
     'C11': dict(
         technique='Lean 4 proof of the primitive codecs (unbounded Nat/Int, all widths and byte orders) + differential correspondence incl. TZ sweep',
-        text=("Theorems: fixed-width integers round-trip with any suffix, equal int.to_bytes digit for digit, and out-of-range or "
-              "negative values are rejected with InvalidValue (never truncated) for widths 1,2,3,4,8 and all byte orders; parse "
-              "returns a value of the code space and consumes exactly the width; timestamps (s/ms, 4/8 bytes, sentinel of the "
-              "field's own width) round-trip. The model has no time-zone parameter; zone independence of the implementation "
-              "is exercised by running the same ops in child processes under 12 (quick) / all installed (thorough) TZ values. "
-              "Flags and mpints: model tied by correspondence and checked against independent references (two's complement "
-              "via int.to_bytes); their Lean round-trip theorems are listed in the evidence as they are added."),
+        text=("43 theorems (CpProps/C11.lean, C11b.lean): fixed-width integers round-trip with any suffix, equal int.to_bytes digit for "
+              "digit, and out-of-range or negative values are rejected with InvalidValue (never truncated) for widths 1,2,3,4,8 "
+              "and all byte orders; parse returns a value of the code space and consumes exactly the width. Timestamps (s/ms, 4- "
+              "and 8-byte fields): every instant up to 9999-12-31T23:59:59 that fits the field round-trips with any suffix, the "
+              "all-ones sentinel is 'no limit', later instants are rejected (the 32-bit mask of 8-byte fields was a defect, "
+              "repaired). Flags: set <-> bit field for every shift. SSH mpints, for ALL integers: compose = the shortest two's "
+              "complement of RFC 4251 (Spec.sshMpint, minimality stated and proved), round trip with any suffix, every accepted "
+              "non-canonical input re-composes to the canonical form; fixed-length mpints: total characterisation for every Int "
+              "(negatives parse unsigned: known finding, pinned by a repo test). The model has no time-zone parameter; zone "
+              "independence of the implementation is exercised by running the same ops in child processes under 12 (quick) / "
+              "all installed (thorough) TZ values, with naive, UTC and offset datetimes."),
         design='§6 C11',
         note=COMMON_NOTE + " NATIVE byte order modelled as little-endian. Calendar arithmetic is CPython's."),
     'C12': dict(
